@@ -243,6 +243,11 @@ class World:
             self.m.freeze_tree()
         elif k == "unfreeze":
             self.m.unfreeze_tree()
+        elif k == "copyfrom":
+            src = World(self.spec)
+            for path, term in op[1]:
+                src.apply(("def", path, term))
+            self.m.copy_expr_from(src.m, "s", overwrite=op[2])
         elif k == "load":
             self.m.load([(T.path_str(a), T.show(b)) for a, b in op[1]], overwrite=op[2])
         else:
@@ -276,8 +281,13 @@ def op_str(op):
         return f"{T.path_str(op[1])} = <fresh container {op[2]!r}>"
     if k in ("regfun", "regknob", "unregid"):
         return f"{k}({op[1]!r})"
+    if k == "copyfrom":
+        return (f"m.copy_expr_from(<manager with {[(T.path_str(a) + ' = ' + T.show(b)) for a, b in op[1]]}>, 's', "
+                f"overwrite={op[2]})")
     if k == "load":
         return f"m.load({[(T.path_str(a), T.show(b)) for a, b in op[1]]!r}, overwrite={op[2]})"
+    if k in ("freeze", "unfreeze"):
+        return f"m.{k}_tree()"
     return f"m.{k}()"
 
 
